@@ -42,6 +42,15 @@ def same_exact(a, b):
     return probs
 
 
+def oob(kind):
+    """protocol-5 pickle with out-of-band buffers, shipped back as writable (bytearray) or immutable (bytes) objects"""
+    def f(q):
+        bufs = []
+        data = pickle.dumps(q, protocol=5, buffer_callback=bufs.append)
+        return pickle.loads(data, buffers=[kind(b.raw()) for b in bufs])
+    return f
+
+
 def run_copies(ctx, rng, n, monitor):
     for i in range(n):
         s = P(rng)
@@ -49,6 +58,7 @@ def run_copies(ctx, rng, n, monitor):
         case = {"kind": "copy", "a": s}
         ways = [(f"pickle protocol {k}", (lambda k: lambda q: pickle.loads(pickle.dumps(q, protocol=k)))(k)) for k in range(6)]
         ways += [("copy.copy", copy.copy), ("copy.deepcopy", copy.deepcopy), (".copy()", lambda q: q.copy())]
+        ways += [("pickle oob writable protocol 5", oob(bytearray)), ("pickle oob readonly protocol 5", oob(bytes))]
         for label, f in ways:
             ctx.evaluations += 1
             ctx.count(label.split()[0])
@@ -210,6 +220,13 @@ def replay(ctx, case):
         if case["kind"] == "copy":
             p = gen.materialize(case["a"], case["a"].get("as", "poly"))
             k = int(case["how"].split()[-1]) if case["how"].startswith("pickle") else None
+            if "oob" in case["how"]:
+                try:
+                    r = oob(bytes if "readonly" in case["how"] else bytearray)(p)
+                except Exception as err:  # noqa: BLE001
+                    return f"{case['how']} raised {type(err).__name__}: {err}"
+                probs = [x for x in same_exact(p, r) if x != "stored terms differ"]
+                return str(probs) if probs else None
             r = pickle.loads(pickle.dumps(p, protocol=k)) if k is not None else {"copy.copy": copy.copy, "copy.deepcopy": copy.deepcopy, ".copy()": lambda q: q.copy()}[case["how"]](p)
             probs = same_exact(p, r)
             return str(probs) if probs else None
